@@ -84,6 +84,8 @@ type readSite struct {
 	prim string // io.ReadFull, io.CopyN, wrapper name, Reader.Read
 	role string
 	errV ssa.Value
+	buf      ssa.Value // destination buffer of a byte read (argument of the primitive or of its wrapper)
+	filtered bool      // the wrapper converts io.EOF itself: nothing raw can come out of this site
 }
 
 func isIOReaderType(t types.Type) bool {
@@ -122,9 +124,24 @@ func sourceReadSites(p *Program) []readSite {
 			case isSourceRead32(staticCallee(ci)):
 				prim = staticCallee(ci).Name()
 			default:
+				if bi, filt, ok := sourceReadBufWrapper(staticCallee(ci)); ok && bi < len(cc.Args) {
+					rs := readSite{fn: fn, call: ci, prim: "io.ReadFull", buf: cc.Args[bi], filtered: filt}
+					if v := ci.Value(); v != nil {
+						if sig, okS := callSig(ci); okS {
+							if ei := errResultIndex(sig); ei >= 0 {
+								rs.errV = extractOf(v, ei)
+							}
+						}
+					}
+					rs.role = readRole(rs)
+					out = append(out, rs)
+				}
 				continue
 			}
 			rs := readSite{fn: fn, call: ci, prim: prim}
+			if (prim == "io.ReadFull" || prim == "io.ReadAtLeast") && len(cc.Args) > 1 {
+				rs.buf = cc.Args[1]
+			}
 			if v := ci.Value(); v != nil {
 				if sig, ok := callSig(ci); ok {
 					if ei := errResultIndex(sig); ei >= 0 {
@@ -154,7 +171,13 @@ func readRole(rs readSite) string {
 	cc := rs.call.Common()
 	switch rs.prim {
 	case "io.ReadFull", "io.ReadAtLeast":
-		buf := cc.Args[1]
+		buf := rs.buf
+		if buf == nil {
+			buf = cc.Args[1]
+		}
+		if _, _, isW := sourceReadBufWrapper(rs.fn); isW {
+			return "wrapper"
+		}
 		switch {
 		case derivesFromField(buf, "Frame.buf"):
 			if isSourceRead32(rs.fn) {
@@ -370,6 +393,9 @@ func ruleEOFProvenance(c *Check, p *Program, rule string, readerSideOnly bool) {
 		}
 		desc := "a raw io.EOF from reading the " + rs.role + " is converted before it can be taken for the end of the frame"
 		esc := rawEscapes(rs)
+		if rs.filtered {
+			esc = nil // the wrapper returns the error through the io.EOF filter already
+		}
 		var bad []string
 		for _, e := range esc {
 			allowed := false
@@ -433,6 +459,12 @@ func ruleSyntheticEOF(c *Check, p *Program, rule string) {
 	}
 	matched := make([]bool, len(allowed))
 	n := 0
+	initRFamily := map[*ssa.Function]bool{}
+	if ir := p.Func("internal/lz4stream", "Blocks.initR"); ir != nil {
+		for _, f := range familyFns(ir)[1:] {
+			initRFamily[f] = true
+		}
+	}
 	for _, fn := range p.SrcFuncs() {
 		if fn.Pkg == nil {
 			continue
@@ -473,11 +505,26 @@ func ruleSyntheticEOF(c *Check, p *Program, rule string) {
 			sfn := shortFn(fn)
 			okk := false
 			for i, w := range allowed {
-				if w.fn == sfn && sameSet(ats, w.atoms) && !matched[i] {
+				fnOK := w.fn == sfn
+				if !fnOK && strings.HasPrefix(w.fn, "Blocks.initR$") {
+					// the reader goroutine of the concurrent pipeline, whatever form it takes
+					fnOK = initRFamily[fn]
+				}
+				if fnOK && sameSet(ats, w.atoms) && !matched[i] {
 					matched[i] = true
 					okk = true
 					c.OK(rule, "synthetic-eof#"+w.desc, p.InstrPos(in), "io.EOF is produced for the "+w.desc+" exactly under {"+strings.Join(w.atoms, ", ")+"}", "guards match", true)
 					break
+				}
+			}
+			if !okk {
+				// passing the end of stream on: the constant is produced where the current error is
+				// already known to be io.EOF (the guard holds here, or at every call site of this helper)
+				for _, a := range atomsOfBlock(in.Block()) {
+					if a.Kind == "eofcmp" && a.Val {
+						okk = true
+						c.OK(rule, "synthetic-eof#"+sfn+"#re-emits-eof", p.InstrPos(in), "io.EOF is returned where the pending error is io.EOF already", "governed by err == io.EOF", true)
+					}
 				}
 			}
 			if !okk {
@@ -577,4 +624,54 @@ func wordName(v ssa.Value) string {
 		}
 	}
 	return shortVal(v)
+}
+
+// sourceReadBufWrapper recognises a module helper that fills a byte-slice
+// parameter from an io.Reader parameter with io.ReadFull and returns the error:
+// returns the index of the buffer parameter and whether every error it returns
+// went through the io.EOF filter (or is nil).
+func sourceReadBufWrapper(f *ssa.Function) (bufIdx int, filtered bool, ok bool) {
+	if !inModule(f) || len(f.Blocks) > 6 {
+		return 0, false, false
+	}
+	bufIdx = -1
+	for _, ci := range callsIn(f) {
+		if !calleeIs(ci, "io", "ReadFull") {
+			continue
+		}
+		a := ci.Common().Args
+		if len(a) < 2 {
+			continue
+		}
+		if _, isP := a[0].(*ssa.Parameter); !isP {
+			continue
+		}
+		for i, prm := range f.Params {
+			if derivesFromValue(a[1], prm) && isSliceType(prm.Type()) {
+				if _, isPrm := a[1].(*ssa.Parameter); isPrm {
+					bufIdx = i
+				}
+			}
+		}
+	}
+	if bufIdx < 0 {
+		return 0, false, false
+	}
+	filtered = true
+	allInstrs(f, func(in ssa.Instruction) {
+		r, isR := in.(*ssa.Return)
+		if !isR {
+			return
+		}
+		for _, res := range r.Results {
+			if !isErrorType(res.Type()) || isNilConst(res) {
+				continue
+			}
+			if call, isC := res.(*ssa.Call); isC && isEOFFilter(staticCallee(call)) {
+				continue
+			}
+			filtered = false
+		}
+	})
+	return bufIdx, filtered, true
 }
